@@ -59,6 +59,7 @@ fn main() {
         "pipe-gen" => pipeline::gen_cases(&args[2], &args[3], seed, &args[4]),
         // pipe-one <mode> <tier> <tag>: regenerate the plan and print only the case with this tag
         "pipe-one" => pipeline::gen_one(&args[2], &args[3], seed, &args[4]),
+        "face-probe" => pipeline::face_probe(seed, args[2].parse().unwrap()),
         // stage-gen <tier> <out>: stage-by-stage dumps
         "stage-gen" => stages::gen(&args[2], seed, &args[3]),
         // eval <infile> <outfile> <start>: evaluate request lines one by one, flushing after each
